@@ -158,3 +158,100 @@ def LateAssign(x: int, typed: bool = True) -> ty.Any:
         wf = workflow.this()
         wf[["a", "b", "c"][i]].inputs.x = nodes[j].out
     return c.out
+
+
+# ------------------------------------------------------------------ C03 shapes
+@python.define
+def ListOut(n: int, tag: int = 0) -> list[int]:
+    import vf.rec as R
+    R.rec("ListOut", n, tag)
+    return [10 * n + i for i in range(n)]
+
+
+@workflow.define(outputs=["out"])
+def W1(xs: list[int]):
+    a = workflow.add(Node(tag=1).split(x=xs), name="a")
+    b = workflow.add(Node(x=a.out, tag=2), name="b")
+    return b.out
+
+
+@workflow.define(outputs=["out"])
+def W2(xs: list[int], ys: list[int]):
+    a = workflow.add(Node(tag=1).split(x=xs), name="a")
+    b = workflow.add(Node(tag=2).split(x=ys), name="b")
+    p = workflow.add(Pair(x=a.out, y=b.out, tag=3), name="p")
+    return p.out
+
+
+@workflow.define(outputs=["out"])
+def W3(xs: list[int]):
+    """shared-origin diamond"""
+    a = workflow.add(Node(tag=1).split(x=xs), name="a")
+    b = workflow.add(Node(x=a.out, tag=2), name="b")
+    c = workflow.add(Node(x=a.out, tag=3), name="c")
+    d = workflow.add(Pair(x=b.out, y=c.out, tag=4), name="d")
+    return d.out
+
+
+@workflow.define(outputs=["out"])
+def W4(xs: list[int]):
+    a = workflow.add(Node(tag=1).split(x=xs), name="a")
+    b = workflow.add(Node(x=a.out, tag=2).combine("a.x"), name="b")
+    c = workflow.add(Total(xs=b.out, tag=3), name="c")
+    return c.out
+
+
+@workflow.define(outputs=["out"])
+def W5(xs: list[int], ys: list[int]):
+    a = workflow.add(Node(tag=1).split(x=xs), name="a")
+    p = workflow.add(Pair(x=a.out, tag=2).split("y", y=ys), name="p")
+    return p.out
+
+
+@workflow.define(outputs=["out"])
+def W5kw(xs: list[int], ys: list[int]):
+    """as W5 with the keyword-only spelling of the downstream split"""
+    a = workflow.add(Node(tag=1).split(x=xs), name="a")
+    p = workflow.add(Pair(x=a.out, tag=2).split(y=ys), name="p")
+    return p.out
+
+
+@workflow.define(outputs=["out"])
+def W7(xs: list[int]):
+    a = workflow.add(Node(tag=1).split(x=xs), name="a")
+    b = workflow.add(Node(x=a.out, tag=2), name="b")
+    c = workflow.add(Node(x=b.out, tag=3).combine("a.x"), name="c")
+    return c.out
+
+
+@workflow.define(outputs=["out"])
+def W8(n: int):
+    """split over an upstream list output"""
+    a = workflow.add(ListOut(n=n, tag=1), name="a")
+    b = workflow.add(Node(tag=2).split(x=a.out), name="b")
+    return b.out
+
+
+@workflow.define(outputs=["out"])
+def W9(xs: list[int]):
+    """one upstream node feeding both inputs"""
+    a = workflow.add(Node(tag=1).split(x=xs), name="a")
+    p = workflow.add(Pair(x=a.out, y=a.out, tag=2), name="p")
+    return p.out
+
+
+@workflow.define(outputs=["out"])
+def W10(xs: list[int], ys: list[int]):
+    """fan-in of two independent splits, combine the second one"""
+    a = workflow.add(Node(tag=1).split(x=xs), name="a")
+    b = workflow.add(Node(tag=2).split(x=ys), name="b")
+    p = workflow.add(Pair(x=a.out, y=b.out, tag=3).combine("b.x"), name="p")
+    return p.out
+
+
+@workflow.define(outputs=["out"])
+def W11(xs: list[int], ys: list[int]):
+    """inner (paired) split at workflow level, then a map"""
+    a = workflow.add(Pair(tag=1).split(("x", "y"), x=xs, y=ys), name="a")
+    b = workflow.add(Node(x=a.out, tag=2), name="b")
+    return b.out
